@@ -51,7 +51,7 @@ fn v4_of(peer: &IpAddr) -> Option<Ipv4Addr> {
     }
 }
 
-fn cidr_for(peer: &IpAddr, how: u8, len_pick: u16, delta: u8) -> (Option<String>, &'static str) {
+pub(crate) fn cidr_for(peer: &IpAddr, how: u8, len_pick: u16, delta: u8) -> (Option<String>, &'static str) {
     const V4LENS: [u8; 9] = [0, 1, 8, 12, 16, 24, 30, 31, 32];
     const V6LENS: [u8; 9] = [0, 1, 16, 32, 48, 64, 96, 127, 128];
     const MALFORMED: [&str; 9] = [
@@ -101,7 +101,7 @@ fn cidr_for(peer: &IpAddr, how: u8, len_pick: u16, delta: u8) -> (Option<String>
     }
 }
 
-fn pattern_for(random: &Option<Vec<u8>>, how: u8, len_pick: u16, bit: u8, upper: bool) -> (Option<String>, &'static str) {
+pub(crate) fn pattern_for(random: &Option<Vec<u8>>, how: u8, len_pick: u16, bit: u8, upper: bool) -> (Option<String>, &'static str) {
     let base: Vec<u8> = random.clone().unwrap_or_else(|| (0..32).map(|i| i as u8 * 7 + 1).collect());
     let full: Vec<u8> = base.iter().copied().chain(std::iter::repeat(0xab)).take(40).collect();
     let hexs = |b: &[u8]| if upper { hex::encode_upper(b) } else { hex::encode(b) };
@@ -199,7 +199,7 @@ pub fn case_strategy() -> BoxedStrategy<Case> {
         .boxed()
 }
 
-fn to_ref(rules: &[RuleSpec]) -> Vec<refr::Rule> {
+pub(crate) fn to_ref(rules: &[RuleSpec]) -> Vec<refr::Rule> {
     rules
         .iter()
         .map(|r| refr::Rule {
@@ -210,7 +210,7 @@ fn to_ref(rules: &[RuleSpec]) -> Vec<refr::Rule> {
         .collect()
 }
 
-fn to_real(rules: &[RuleSpec]) -> Vec<Rule> {
+pub(crate) fn to_real(rules: &[RuleSpec]) -> Vec<Rule> {
     rules
         .iter()
         .map(|r| Rule {
@@ -535,6 +535,7 @@ pub fn run(ctx: &mut Ctx) {
     ctx.run_suite(&FileSuite);
     ctx.run_suite(&WiringSuite);
     ctx.run_suite(&super::c12quic::QuicRandomSuite);
+    ctx.run_suite(&super::frontdoor::FrontDoorSuite);
     ctx.assume("don't-care: masks whose two sides differ in length, are empty or longer than the random; empty prefix; CIDRs with host bits set; at the engine level an IPv4-mapped address against an IPv4 CIDR; rules with an unknown action or a wrongly typed field; absent random when only malformed patterns exist");
     ctx.assume("'dropped before the TLS handshake is answered' is covered at the call-site level (evaluate_connection_rules result) here; the socket-level observation belongs to the full-stack scenarios");
 }
@@ -545,6 +546,7 @@ pub fn replay(ctx: &mut Ctx, suite: &str, case: &Value) -> bool {
         "rules-file" => ctx.replay_suite(&FileSuite, case),
         "wiring" => ctx.replay_suite(&WiringSuite, case),
         "quic-client-random" => ctx.replay_suite(&super::c12quic::QuicRandomSuite, case),
+        "tls-front-door" => ctx.replay_suite(&super::frontdoor::FrontDoorSuite, case),
         _ => false,
     }
 }
